@@ -53,10 +53,18 @@ class TrioRunner(BaseRunner):
         await self._ready.wait()
 
     async def manage_payloads(self):
+        trio_run = self.asyncio_loop.run_in_executor(None, self._run_trio_blocking)
         try:
-            await self.asyncio_loop.run_in_executor(None, self._run_trio_blocking)
+            # shield so that cancelling us does not detach from the trio thread
+            await asyncio.shield(trio_run)
         except asyncio.CancelledError:
             await self.aclose()
+            # payloads may need time for cleanup: wait until trio has actually finished
+            try:
+                await trio_run
+            except BaseException:  # noqa: B036
+                # we are being cancelled, results of payloads are no longer of interest
+                pass
             raise
 
     def _run_trio_blocking(self):
